@@ -14,6 +14,8 @@ def run(ctx, replay):
                        "cache.Cache / Store with a timestamp shifter as the clock; verdicts = C04 predicates on the real "
                        "replies against the driver's own lifetime oracle; distinct = distinct action sequences; recorded "
                        "runs validated by Trace_Lease with the property predicates evaluated on observed values")
+    if replay and c04_api.run_replay(ctx, replay):
+        return
     c04_api.run_api(ctx)
     try:
         pipe = importlib.import_module("c04_pipeline")
